@@ -108,6 +108,62 @@ def reference {S U Ind Res} (c : Cfg S U Ind Res) (inject : Ind → Res) (s0 : S
   (s, c.inds.zipIdx.map (fun (x, i) => match (ts.map (fun t => (t.idx, c.task t.ind t.seed))).lookup i with
                                         | some r => r | none => inject x))
 
+/-! ## A whole run: a sequence of operator applications, every operator with its own generator
+
+`_solve_by_evolution` applies the configured operators one after the other; each EVQE operator owns a generator seeded in
+the solver's constructor (`seedOrder`), the population is handed from one application to the next.  An application of
+operator `k` runs under some schedule of its submitting loop and the workers. -/
+
+/-- an operator: its generator interface, its mutation decision and the task it submits for an individual and a seed
+(speciation and selection submit tasks that ignore the seed or none at all: `mutate := fun _ => false`) -/
+structure Op (S U Ind : Type) where
+  R : Rng S U
+  mutate : U → Bool
+  task : Ind → Nat → Ind
+
+structure RunSt (S Ind : Type) where
+  gens : List S               -- generator state of every operator
+  pop : List Ind
+
+def Op.cfg {S U Ind} (o : Op S U Ind) (pop : List Ind) : Cfg S U Ind Ind :=
+  { R := o.R, mutate := o.mutate, inds := pop, task := o.task }
+
+/-- apply operator `k` under the schedule `acts` -/
+def applyWith {S U Ind} (ops : List (Op S U Ind)) (st : RunSt S Ind) (k : Nat) (acts : List Act) : RunSt S Ind :=
+  match ops[k]?, st.gens[k]? with
+  | some o, some g =>
+    let fin := exec (o.cfg st.pop) g acts
+    { gens := st.gens.set k fin.rng, pop := gather id st.pop fin }
+  | _, _ => st
+
+/-- apply operator `k` sequentially (the reference) -/
+def applyRef {S U Ind} (ops : List (Op S U Ind)) (st : RunSt S Ind) (k : Nat) : RunSt S Ind :=
+  match ops[k]?, st.gens[k]? with
+  | some o, some g =>
+    let r := reference (o.cfg st.pop) id g
+    { gens := st.gens.set k r.1, pop := r.2 }
+  | _, _ => st
+
+/-- the application of operator `k` in state `st` under `acts` ran to completion -/
+def AppComplete {S U Ind} (ops : List (Op S U Ind)) (st : RunSt S Ind) (k : Nat) (acts : List Act) : Prop :=
+  match ops[k]?, st.gens[k]? with
+  | some o, some g => Complete (o.cfg st.pop) (exec (o.cfg st.pop) g acts)
+  | _, _ => True
+
+/-- a whole run: the operator indices in application order, each with the schedule it ran under -/
+def runWith {S U Ind} (ops : List (Op S U Ind)) : RunSt S Ind → List (Nat × List Act) → RunSt S Ind
+  | st, [] => st
+  | st, (k, acts) :: rest => runWith ops (applyWith ops st k acts) rest
+
+def runRef {S U Ind} (ops : List (Op S U Ind)) : RunSt S Ind → List Nat → RunSt S Ind
+  | st, [] => st
+  | st, k :: rest => runRef ops (applyRef ops st k) rest
+
+/-- every application of the run was complete (in the state in which it started) -/
+def RunComplete {S U Ind} (ops : List (Op S U Ind)) : RunSt S Ind → List (Nat × List Act) → Prop
+  | _, [] => True
+  | st, (k, acts) :: rest => AppComplete ops st k acts ∧ RunComplete ops (applyWith ops st k acts) rest
+
 /-! ## The variant in which the seed is drawn inside the task (shared generator used by two threads) -/
 
 namespace Shared
